@@ -28,11 +28,13 @@ CONFIG = dict(
 CONFIG.update(
     level_text=("Lean 4 theorems: the code-shaped registry model (chain of association lists with RefCell flags, find + "
                 "index arithmetic, entry resolution, multi-borrow) refines the abstract stack of partial maps for each of "
-                "the 30 operation kinds (step_refines) and hence for every finite history (history_refines); corollaries: "
-                "lookups/removals/entry access resolve to the innermost holder, insert writes the top map and reports the "
-                "top map's previous value, removing the innermost binding re-exposes the shadowed one, an absent type is an "
-                "error/None and is never created by a non-inserting operation, a popped scope is exactly the child's own map "
-                "and shadowed parent bindings are unchanged, keys stay unique per map. The model is tied to /repo by running "
+                "the 30 operation kinds (step_refines) and hence for every finite history (history_refines, history_refines_from); "
+                "stated outright: lookup_innermost (find = first holder; get/remove/set/get_mut/occupied-entry methods act on that "
+                "cell), insert_top_reports_top, remove_innermost_reexposes (only that scope changes; the type then resolves as the "
+                "outer scopes say), absent_is_error_not_invented (18 non-inserting operations leave the registry untouched; the 4 "
+                "inserting entry combinators write the top scope), pop_yields_inserted (for every block between push and pop: the "
+                "pop returns exactly the child's map and the parent chain, unnamed types are untouched, types shadowed throughout "
+                "keep their parent values), nodup_preserved. The model is tied to /repo by running "
                 "the real State/StateRegistry on exhaustive short and seeded long histories and diffing every return value and "
                 "a final dump against the compiled model (K) and against the abstract stack of maps (O)."),
     level_note=("Trusted: Lean kernel; HashMap/TypeId represented by association lists over type indices; harness + driver "
